@@ -557,6 +557,29 @@ func ruleE5Loops(c *Ctx) []Ob {
 								// len(x) re-evaluated in the header: invariant when x is defined outside the loop
 								if vb := valueBlock(call.Call.Args[0], b); vb == nil || !b.Dominates(vb) {
 									inv = true
+								} else if ld, ok := call.Call.Args[0].(*ssa.UnOp); ok && ld.Op == token.MUL && ld.Block() == b {
+									// a field re-read in the header: invariant when nothing in the loop stores it or calls module code
+									inv = true
+									for _, lb := range fn.Blocks {
+										if !(lb == b || b.Dominates(lb) && blockReaches(lb, b)) {
+											continue
+										}
+										for _, li := range lb.Instrs {
+											switch y := li.(type) {
+											case *ssa.Store:
+												if path(y.Addr) == path(ld.X) || !localAlloc(rootOfAddr(y.Addr)) && path(ld.X) == "" {
+													inv = false
+												}
+											case *ssa.Call:
+												if f := y.Call.StaticCallee(); f != nil && c.InModule(f) {
+													inv = false
+												}
+												if y.Call.StaticCallee() == nil && !isBuiltinCall(y) {
+													inv = false
+												}
+											}
+										}
+									}
 								}
 							}
 							if inv {
@@ -623,4 +646,23 @@ func (c *Ctx) bounds(fn *ssa.Function, closure map[*ssa.Function]bool) *linAn {
 	a := e4Function(c, nil, fn, closure)
 	c.boundsCache[fn] = a
 	return a
+}
+
+func rootOfAddr(v ssa.Value) ssa.Value {
+	for {
+		switch y := v.(type) {
+		case *ssa.FieldAddr:
+			v = y.X
+			continue
+		case *ssa.IndexAddr:
+			v = y.X
+			continue
+		}
+		return v
+	}
+}
+
+func isBuiltinCall(call *ssa.Call) bool {
+	_, ok := call.Call.Value.(*ssa.Builtin)
+	return ok
 }
